@@ -269,6 +269,9 @@ struct kv_op kv_ops_bpm[] = {
         {"upgma", op_upgma},
         {"upgma_exact", op_upgma},
         {"tree", op_tree},
+        {"dist_matrix_soft", op_dist_matrix},   /* model side: SoftF32 twins (Model/TreeSoft.lean) */
+        {"upgma_soft", op_upgma},
+        {"tree_soft", op_tree},
         {"tree_exact", op_tree},   /* Lean side: exact distances + exact UPGMA; emitted only for margin-safe inputs */
         {NULL, NULL}
 };
